@@ -170,9 +170,12 @@ func locateFieldByName(structValue reflect.Value, name string) (value reflect.Va
 	structType := structValue.Type()
 	for i := 0; i < structType.NumField(); i++ {
 		field := structType.Field(i)
-		if strings.EqualFold(name, field.Name) || field.Tag.Get("cassandra") == name {
+		if tag, tagged := field.Tag.Lookup("cassandra"); tagged && tag != "" {
+			if tag == name {
+				return structValue.Field(i)
+			}
+		} else if strings.EqualFold(name, field.Name) && !value.IsValid() {
 			value = structValue.Field(i)
-			break
 		}
 	}
 	return
